@@ -45,9 +45,9 @@ theorem C03_top_is_root_module (cfg : Cfg) (p : List String) (h : p.length = cfg
   have : List.drop cfg.top.length p = [] := by rw [← h]; exact List.drop_length
   simp [moduleVar, joinWith, this]
 
-/-- an ignored class gets no `py::class_` statement -/
+/-- an ignored class gets no `py::class_` statement and none of its enums is registered: nothing at all -/
 theorem C03_ignored_class_not_bound (cfg : Cfg) (c : IClass) (h : cfg.ignore.contains c.toCpp = true) :
-    emitClass cfg c = classEnums c := by
+    emitClass cfg c = [] := by
   have h' : c.toCpp ∈ cfg.ignore := by simpa using h
   simp [emitClass, h']
 
@@ -74,10 +74,11 @@ theorem C03_class_bound_once (cfg : Cfg) (c : IClass) (h : cfg.ignore.contains c
 theorem C03_keyword_escape (n : String) :
     escapeKeyword Gen.pythonKeywords n = (if Gen.pythonKeywords.contains n then n ++ "_" else n) := rfl
 
-/-- table obligation over the regenerated tables: which keywords of the running interpreter the code's table
-    misses.  FULL STATEMENT (`Gen.kwlist ⊆ Gen.pythonKeywords`) is false today: `async` and `await` are missing. -/
-theorem C03_keyword_table_gap :
-    Gen.kwlist.filter (fun k => !Gen.pythonKeywords.contains k) = ["async", "await"] := by decide
+/-- table obligation over the regenerated tables: every keyword of the running interpreter (`keyword.kwlist`) is in the
+    code's table, i.e. is escaped.  (Before fix e2cc4ef `async` and `await` were missing; this theorem then stated
+    the gap.) -/
+theorem C03_keyword_table_complete :
+    Gen.kwlist.filter (fun k => !Gen.pythonKeywords.contains k) = [] := by decide
 
 /-- non-vacuity of `C03_submodule_first` -/
 example : partialMatch ["", "gtsam", "noise"] ["", "gtsam"] = true ∧ ["", "gtsam"].length < ["", "gtsam", "noise"].length := by decide
